@@ -115,6 +115,25 @@ EXTRA = {
     "C20": "CRLF variants of the round-trip texts; free holes also inside a code block and inside a raw string (alphabet with CR and back quote). Free holes directly behind a literal and behind a class.",
 }
 
+# rounds 10 and 11 (DESIGN.md 8.17, 8.18)
+EXTRA2 = {
+    "C03": "Harness_C03term: the rule / initializer terminator as a hole (<= 2 / 3 symbolic layout bytes before a semicolon or an end of line).",
+    "C04": "Witness loop over the known duplicate-declaration shapes (F13, F22 duplicate rule with blocks, F23 duplicate label in a scope), each re-confirmed with go build; tr_duplist, tr_lblshadow in the type-checked set.",
+    "C06": "A double evaluation reported by the expronce monitor is confirmed natively on an instrumented scratch copy of the generated parser (one inserted line in parseExpr), since it changes no result.",
+    "C07": "(b) also on grammars that define a rule twice, one definition left-recursive (cy_dupfirst, cy_duplast, cy_dupstart).",
+    "C10": "tr_lblshadow, tr_lblshadow2: a labelled recovery operator whose operands bind a label with the name of an earlier label of the enclosing sequence.",
+    "C13": "Mutation family also on two grammars with two left-recursive groups, one reachable from the other at its first position.",
+    "C14": "tr_escalate, tr_lblshadow*, tr_duplist (a failure label listed twice).",
+    "C16": "Parsers generated with -optimize-parser (no Statistics, no Memoize): budget error <=> the reference interpreter evaluates more than budget expressions; half of the budget catalogue (quick) / all of it (thorough) and one left-recursive grammar.",
+    "C18": "Sixth family C18sharedopts: one option list (all options but Statistics) shared by three calls, everything reachable from it under the ownership monitor (symShare); native confirmation under the race detector with the list shared by all goroutines.",
+    "C19": "dup_labels (a label bound twice in one scope), dup_faillabels (a failure label listed twice).",
+    "C05": "stlr_prefix (state blocks between two evaluations of a leader at one offset).",
+    "C09": "og_sharps1/2 (caseless literals, among them sharp s, next to i-literals).",
+    "C02": "Label lemma from scope stacks of depth 0, 255 and 256 and with labels under recovery operators; literal position lemma.",
+}
+for _k, _v in EXTRA2.items():
+    EXTRA[_k] = (EXTRA.get(_k, "") + " " + _v).strip()
+
 NOT_BUILT = {
 }
 
